@@ -1,5 +1,6 @@
 import SV.Driver.Util
 import SV.Model.Region
+import SV.Model.Blob
 /-
 svdriver_c06: line protocol for the C06 models.
   rs.reset                 -> ok
@@ -11,6 +12,10 @@ open SV.Driver SV.Region
 
 structure St where
   rs : List Region := []
+  P : SV.Blob.Params := ⟨0, 1⟩
+  salt : Nat := 0
+  bs : SV.Blob.St := {}
+  fs : SV.Blob.FSt := {}
 
 /-- Canonical form used for comparison: sorted by start, overlapping/adjacent regions merged
 (the property speaks about the set of covered bytes, not about the slice layout). -/
@@ -41,7 +46,85 @@ def parseReg? (s : String) : Option Region :=
     some ⟨b, e⟩
   | _ => none
 
+/-- Blob content shared with the Go harness: `B[i] = (i*131 + salt*17 + i/251) % 251`. -/
+def content (size salt : Nat) : SV.Blob.Bytes :=
+  (List.range size).map fun i => UInt8.ofNat ((i * 131 + salt * 17 + i / 251) % 251)
+
+/-- FNV-1a 32 over the bytes, the digest both sides print instead of the raw bytes. -/
+def fnv (bs : SV.Blob.Bytes) : Nat :=
+  bs.foldl (fun h b => ((h ^^^ b.toNat) * 16777619) % 4294967296) 2166136261
+
+def parsePart? (B : SV.Blob.Bytes) (s : String) : Option SV.Blob.Part :=
+  match s.splitOn "-" with
+  | [b, e, l] => do
+    let b ← parseNat? b
+    let e ← parseNat? e
+    let l ← parseNat? l
+    some ⟨b, e, SV.Blob.slice B b l⟩
+  | _ => none
+
+def parseReply? (B : SV.Blob.Bytes) (s : String) : Option SV.Blob.Reply :=
+  if s = "fail" ∨ s = "none" then some .fail
+  else if s.startsWith "parts:" then
+    ((s.drop 6).toString.splitOn ",").mapM (parsePart? B) |>.map .parts
+  else none
+
+def parseStatus? : String → Option SV.Blob.Status
+  | "200" => some .ok200
+  | "206" => some .partial206
+  | "403" => some .forbidden403
+  | "400" => some .badReq400
+  | "neterr" => some .netErr
+  | _ => some .other
+
+def showChunks (cs : List Region) : String := showRs cs
+
+def b2s (b : Bool) : String := if b then "1" else "0"
+
 def step (s : St) : List String → St × String
+  | ["blob", size, chunk, salt] =>
+    match parseNat? size, parseNat? chunk, parseNat? salt with
+    | some size, some chunk, some salt =>
+      if chunk = 0 then (s, "bad-op") else
+      ({ s with P := ⟨size, chunk⟩, salt := salt, bs := {}, fs := {} }, "ok")
+    | _, _, _ => (s, "bad-op")
+  | ["read", o, n, single, reply] =>
+    let B := content s.P.size s.salt
+    match parseNat? o, parseNat? n, parseReply? B reply with
+    | some o, some n, some rep =>
+      let req := match SV.Blob.missingFor s.P s.bs o n with
+        | some ms => showRs (SV.Blob.requestRanges (single = "1") ms)
+        | none => "misaligned"
+      let (bs', r) := SV.Blob.readAt s.P s.bs o n rep
+      let out := match r with
+        | none => "err"
+        | some (k, buf) => s!"ok k={k} sum={fnv (buf.take k)}"
+      ({ s with bs := bs' }, s!"{out} req={req} fetched={totalSize bs'.fetched}")
+    | _, _, _ => (s, "bad-op")
+  | ["cache", o, n, single, reply] =>
+    let B := content s.P.size s.salt
+    match parseNat? o, parseNat? n, parseReply? B reply with
+    | some o, some n, some rep =>
+      let req := match SV.Blob.walkChunks s.P (SV.Blob.floorU o s.P.chunk) (SV.Blob.ceilU (o + n - 1) s.P.chunk - 1) with
+        | some cs => showRs (SV.Blob.requestRanges (single = "1") (cs.filter fun c => (s.bs.cache.get c).isNone))
+        | none => "misaligned"
+      let (bs', ok) := SV.Blob.cacheAt s.P s.bs o n rep
+      ({ s with bs := bs' }, s!"{if ok then "ok" else "err"} req={req} fetched={totalSize bs'.fetched}")
+    | _, _, _ => (s, "bad-op")
+  | ["drop", b, e] =>
+    match parseNat? b, parseNat? e with
+    | some b, some e =>
+      ({ s with bs := { s.bs with cache := s.bs.cache.filter fun kv => kv.1 ≠ ⟨b, e⟩ } }, "ok")
+    | _, _ => (s, "bad-op")
+  | ["fsm", single, redirected, retry, script, refresh] =>
+    let sts := if script = "-" then some [] else (script.splitOn ",").mapM parseStatus?
+    let rf : Option (Option Bool) := match refresh with
+      | "none" => some none | "0" => some (some false) | "1" => some (some true) | _ => none
+    match sts, rf with
+    | some sts, some rf =>
+      let (f', out, nreq) := SV.Blob.fetchSM ⟨single = "1", redirected = "1"⟩ (retry = "1") sts rf
+      (s, s!"{if out == .body then "body" else "error"} reqs={nreq} single={b2s f'.singleRange} redirected={b2s f'.redirected}")
+    | _, _ => (s, "bad-op")
   | ["rs.reset"] => ({ s with rs := [] }, "ok")
   | ["rs.add", b, e] =>
     match parseInt? b, parseInt? e with
